@@ -12,6 +12,10 @@ import (
 
 var errOnTracks = errors.New("simulated OnTracks failure")
 
+// the client's goroutines may be held for a few simulated nanoseconds each at instrumented points (order
+// perturbation): what happens within this span of a delivery counts as happening at its instant
+const sameInstant = 100 * time.Nanosecond
+
 // the pending-request check of blackholed requests: a request that is never answered must not keep the client alive after Close
 func c12Origin(r *Run) *stubOrigin {
 	g := &originGen{containers: []string{"ts", "fmp4"}, modes: []string{"vod", "live", "event"}, minSegs: 3, maxSegs: 8,
@@ -35,7 +39,7 @@ func checkTermination(r *Run, w *cliWorld, faultFired string, faultStatus int, c
 		switch w.waitErr.Error() {
 		case "next segment not found or not ready yet", "playback is too late", "there aren't enough segments to fill the buffer":
 			for _, nr := range w.net.log {
-				if nr.delivered && nr.fate.fault == "" && strings.Contains(nr.url, ".m3u8") && nr.deliveredAt == w.waitAt {
+				if nr.delivered && nr.fate.fault == "" && strings.Contains(nr.url, ".m3u8") && nr.deliveredAt <= w.waitAt && w.waitAt-nr.deliveredAt <= sameInstant {
 					faultFirst = false
 				}
 			}
